@@ -306,6 +306,8 @@ class Unit:
             log.append(dict(rule='R4', where=where, matches=n_before, why='private struct fields widened to pub (Verus spec accessors need it)'))
         for rw in list(kw.get('rewrites', [])) + self.rewrites:
             text = rw.apply(text, where, log)
+        if kw.get('desugar_for'):
+            text = desugar_for_loops(text, kw['desugar_for'], where, log)
         # splice points are computed on the rewritten text; all splices are insertions
         splices = []  # (offset, text)
         is_fn = spec.path.startswith('fn ') or '::fn ' in spec.path or 'lift' in kw
@@ -544,4 +546,41 @@ def expand_local_macro(text, name, where, log):
         return '{' + b + '}'
     text = call.sub(expand, text)
     log.append(dict(rule='R3', where=where, matches=count[0], why='local macro_rules! %s expanded by token substitution' % name))
+    return text
+
+
+def desugar_for_loops(text, spec, where, log):
+    """R9: `for PAT in EXPR { BODY }` over a Vec / slice  ->  an indexed `while` loop
+
+        { let it_NAME = EXPR; let mut NAME: usize = 0;
+          while NAME < it_NAME.len() { let PAT = <elem>; NAME = NAME + 1; BODY } }
+
+    with <elem> = `it_NAME[NAME]` (mode 'val', element type is Copy) or `&it_NAME[NAME]`
+    (mode 'ref', iteration over `&vec` / a slice).  This is the meaning of the `for` loop
+    for these containers; it lets invariants talk about the position NAME and lets Verus
+    accept `continue` in the body.  spec = {loop ordinal: (NAME, mode)}; ordinals count all
+    loops of the item in textual order and do not change."""
+    code = rsitems.lex_mask(text)
+    loops = rsitems.loops_in(text, 0, len(text), code)
+    for ordinal in sorted(spec, reverse=True):
+        name, mode = spec[ordinal]
+        if ordinal >= len(loops):
+            raise ExtractError('%s: desugar_for: loop #%d not found' % (where, ordinal))
+        kw_off, kind, body, in_kw = loops[ordinal]
+        if kind != 'for' or in_kw is None:
+            raise ExtractError('%s: desugar_for: loop #%d is not a for loop' % (where, ordinal))
+        pat = text[kw_off + 3:in_kw].strip()
+        expr = text[in_kw + 2:body].strip()
+        close = rsitems.match_bracket(text, code, body)
+        elem = ('it_%s[%s]' if mode == 'val' else '&it_%s[%s]') % (name, name)
+        head = '{ let it_%s = %s; let mut %s: usize = 0; while %s < it_%s.len() ' % (name, expr, name, name, name)
+        # keep the line structure: header text is replaced on its own line(s)
+        nl = text[kw_off:body].count('\n')
+        new = (text[:kw_off] + head + '\n' * nl + '{' + ' let %s = %s; %s = %s + 1; ' % (pat, elem, name, name)
+               + text[body + 1:close + 1] + ' }' + text[close + 1:])
+        text = new
+        log.append(dict(rule='R9', where=where, matches=1,
+                        why='for loop #%d over `%s` desugared to an indexed while loop (position `%s`, elements by %s)' % (ordinal, expr, name, mode)))
+        code = rsitems.lex_mask(text)
+        loops = rsitems.loops_in(text, 0, len(text), code)
     return text
